@@ -242,7 +242,12 @@ def dialViaF (w : World) : Nat → List Layer → List (List Nat) → HP → Out
   | fuel+1, .dns cache :: inner, ch, a =>
     let entry : Option (List Bytes) := match assocGet cache a.host with
       | some arr => some arr
-      | none => assocGet w.answers a.host
+      | none =>
+        match assocGet w.answers a.host with
+        | some ips => some ips
+        | none =>
+          -- `net.LookupIP` of an IP literal (e.g. what an outer DNS layer hands down) is that IP
+          if w.famOf a.host ≠ .invalid then some [a.host] else none
     match entry with
     | none => .error 1
     | some arr =>
